@@ -27,7 +27,7 @@ ANCHORS = ["prov.model:ProvBundle._add_record", "prov.model:ProvBundle.get_recor
 
 def plan(tier, seed):
     return {
-        "cases": 6000 if tier == "quick" else 120000,
+        "cases": 6000 if tier == "quick" else 80000,
         "hashseeds": [0] if tier == "quick" else [0, 1, 2, 3],
         "timeout_s": 300 if tier == "quick" else 3000,
         "rule": "case = two c01 programs A and B; look-ups in every spelling are issued while A is built (after a random subset of "
